@@ -342,9 +342,34 @@ func main() {
 	for _, v := range full.via {
 		modesA = append(modesA, mode{v, false, nil})
 	}
+	// thorough: TLSClientAuth over the full identity alphabet; the two wrappers over the full
+	// product of the smaller (quick) identity alphabet x all roots x all flags
+	in := func(x string, set ...string) bool {
+		for _, y := range set {
+			if x == y {
+				return true
+			}
+		}
+		return false
+	}
+	smallID := func(id identity) bool {
+		return in(id.cf, "", "R1", "E1", "missing", "garbage") && in(id.kf, "", "kR1", "kE1", "kE2", "missing") &&
+			in(id.lc, "", "R1", "E1") && in(id.lk, "", "kR1", "kE1", "kE2", "kD1")
+	}
+	wrapperIDs := 0
 	for _, id := range full.identities() {
+		modes := modesA
+		if r.Thorough() {
+			if smallID(id) {
+				wrapperIDs++
+			} else {
+				modes = modesA[:1]
+			}
+		} else {
+			wrapperIDs++
+		}
 		for _, ro := range full.roots() {
-			shards = append(shards, shard{"A", id, ro, flA, modesA})
+			shards = append(shards, shard{"A", id, ro, flA, modes})
 		}
 	}
 	nA := len(shards)
@@ -359,11 +384,11 @@ func main() {
 	}
 	nB1 := len(shards) - nA
 	// sweep B2: few identities x every root combination x every flag combination x all scenarios
-	b2ids := []identity{{"", "", "", ""}, {"", "", "E1", "kE1"}, {"R1", "kR1", "", ""}}
+	b2ids := []identity{{"", "", "", ""}, {"", "", "E1", "kE1"}} // (RSA and file identities meet every scenario in B1)
 	few := []string{"A/srv.test", "A/other.test", "C/srv.test", "P/srv.test", "SYS/srv.test", "U/srv.test", "A/srv.test/old", "A/srv.test/tls12"}
-	b2modes := []mode{{"auth", false, scen}, {"client", true, scen}, {"transport", true, few}}
+	some := append(append([]string{}, scen[:12]...), "A/srv.test/old", "A/srv.test/tls12") // every issuer x name, one old, one TLS 1.2 server
+	b2modes := []mode{{"auth", false, scen}, {"client", true, some}, {"transport", true, few}}
 	if !r.Thorough() {
-		b2ids = b2ids[:2]
 		b2modes = []mode{{"auth", false, scen}, {"client", true, few}}
 	}
 	flB2 := hsVerify.flags()
@@ -385,8 +410,8 @@ func main() {
 	r.Set("axis_callback", full.callback)
 	r.Set("axis_entry_point", full.via)
 	r.Set("axis_scenarios", scen)
-	r.Set("sweep_A_fields", map[string]int{"identities": len(full.identities()), "roots": len(full.roots()), "flags": len(flA), "entry_points": len(modesA),
-		"cases": len(full.identities()) * len(full.roots()) * len(flA) * len(modesA)})
+	r.Set("sweep_A_fields", map[string]int{"identities": len(full.identities()), "identities_also_through_wrappers": wrapperIDs, "roots": len(full.roots()), "flags": len(flA), "entry_points": len(modesA),
+		"cases": (len(full.identities()) + wrapperIDs*(len(modesA)-1)) * len(full.roots()) * len(flA)})
 	r.Set("sweep_B1_identity_handshakes", map[string]int{"identities": len(hsIdent.identities()), "roots": len(b1roots), "flags": len(b1flags), "modes": len(b1modes), "scenarios": len(scen)})
 	r.Set("sweep_B2_verification_handshakes", map[string]int{"identities": len(b2ids), "roots": len(full.roots()), "flags": len(flB2), "modes": len(b2modes), "scenarios": len(scen)})
 	r.Set("shards", map[string]int{"A": nA, "B1": nB1, "B2": nB2})
